@@ -27,7 +27,7 @@ type waitResult struct {
 	Inconcl  string    `json:"inconclusive,omitempty"`
 }
 
-func (r *waitResult) tr(f string, a ...any)  { r.Trace = append(r.Trace, fmt.Sprintf(f, a...)) }
+func (r *waitResult) tr(f string, a ...any) { r.Trace = append(r.Trace, fmt.Sprintf(f, a...)) }
 func (r *waitResult) viol(fp, f string, a ...any) {
 	r.Findings = append(r.Findings, finding{fp, fmt.Sprintf(f, a...)})
 	r.tr("VIOLATION "+fp+": "+f, a...)
